@@ -103,6 +103,28 @@ func C16Flate(r *eng.Run) {
 			}
 		}
 	}
+	// The decompressing reader straight over a source of its own (the
+	// compressed payload as the application received it some other way): the
+	// source fails at any offset with an error that says where it came from
+	// and wraps io.EOF (a tunnel that closed) - an abnormal end all the same.
+	payload := comp.Bytes()[:comp.Len()-4]
+	for k := 0; k < len(payload); k++ {
+		r.T.Rewind()
+		r.Res.FaultPoints++
+		p := NewPipe(r, payload)
+		p.SegMode, p.EOFWithData = seg, withData
+		p.CutAt, p.CutKind, p.WrapEOFErr = k, CutErr, true
+		var src io.Reader = p
+		if byteReader {
+			src = &byteSrc{p}
+		}
+		fr := wsflate.NewReader(src, func(x io.Reader) wsflate.Decompressor { return flate.NewReader(x) })
+		got, err := io.ReadAll(fr)
+		r.Fault("compressed_source_fails_with_wrapped_eof")
+		if err == nil {
+			r.Failf("success_for_cut_unit", "wsflate.Reader over a source that fails at offset %d of %d with an error wrapping io.EOF: reading until EOF returned %d of %d bytes and no error", k, len(payload), len(got), len(msg))
+		}
+	}
 }
 
 // readerByteSrc gives a wsutil.Reader a ReadByte (sources that are
